@@ -134,12 +134,12 @@ Proof.
 Qed.
 
 (* ---------------------------------------------------------------- soundness *)
-Lemma check_plan_sound_l : forall T steps P names,
-  check_plan T steps P names = true ->
+Lemma check_plan_sound_l : forall T steps disp P names,
+  check_plan T steps disp P names = true ->
   forall m S, incl S names -> mode_ok m S ->
-  forall f, In f S -> supplied_b P (dispatch (new T steps (needs_of m S))) m f = true.
+  forall f, In f S -> supplied_b P (disp (new T steps (needs_of m S))) m f = true.
 Proof.
-  intros T steps P names Hc m S Hincl [Hcls Htr] f Hf.
+  intros T steps disp P names Hc m S Hincl [Hcls Htr] f Hf.
   set (C := filter (fun k => existsb (key_eqb k) (map (key_of T) S)) (classes T names)).
   assert (HC : forall k, In k C <-> In k (map (key_of T) S)).
   { intros k. unfold C. rewrite filter_In, existsb_key. split; [intros [_ H]; exact H|].
